@@ -223,8 +223,9 @@ def scan_cases(payload):
         for a, i in zip(axis, idx):
           sl[a] = i
         x = xn[tuple(sl)]
-        carry = (carry * 3 + int(x.sum())) % 1000003
-        ysn[tuple(sl)] = x * 2 + carry % 7
+        u = carry * 3 + int(x.sum())          # the body adds u % 7 (before reducing the carry)
+        carry = u % 1000003
+        ysn[tuple(sl)] = x * 2 + u % 7
       # raw observations for the model (Model/ScanNd.v): per step of the nested loops the sum of the slice handed to the body and the
       # offset the body added to it (taken from the real outputs), nested in the order of the scanned axes
       yn = np.asarray(ys)
